@@ -1231,6 +1231,21 @@ fn many_distinct_tokens(ctx: &mut Ctx) {
     let new: String = (0..n).map(|i| if i % 100 == 7 { format!("n{}\n", i) } else { format!("{}\n", i) }).collect();
     let req = format!("text lines str patience - - | <{} distinct lines> | <every 100th line replaced by a fresh one: 65650 distinct lines in all> | - | -", n);
     distinct_tokens_case(ctx, Algorithm::Patience, &req, &old, &new);
+    // (c) a BIRTHDAY case: 240 000 distinct tokens per side, each of them an anchor that decides how its block is aligned
+    // (blocks `S_i U_i r r r` against `S_i r r r U_i`, as in the determinism suite). If tokens are identified by
+    // anything narrower than the tokens themselves -- a 32-bit hash, a truncated fingerprint -- some two of them almost
+    // surely coincide (expected number of coinciding pairs at 32 bits: 240 000^2 / 2^33 = 6.7), both stop being unique,
+    // their blocks are aligned differently, and the ops are no longer the ops of the token diff
+    let nb = 120_000usize;
+    let mut old = String::with_capacity(nb * 24);
+    let mut new = String::with_capacity(nb * 24);
+    for i in 0..nb {
+        use std::fmt::Write;
+        let _ = write!(old, "S{}\nU{}\nr\nr\nr\n", i, i);
+        let _ = write!(new, "S{}\nr\nr\nr\nU{}\n", i, i);
+    }
+    let req = format!("text lines str patience - - | <{} blocks S_i U_i r r r> | <{} blocks S_i r r r U_i> | - | -", nb, nb);
+    distinct_tokens_case(ctx, Algorithm::Patience, &req, &old, &new);
 }
 
 fn distinct_tokens_case(ctx: &mut Ctx, alg: Algorithm, req: &str, old: &str, new: &str) {
@@ -1773,12 +1788,19 @@ fn render_udiff<T: DiffableStr + ?Sized>(c: &UCfg, repair: bool, old: &T, new: &
                 if want != got {
                     return Err(format!("hunk {}: iter_changes() differs from the expansion of its ops", k));
                 }
+                if want.len() <= 40 {
+                    super::misc::drive_check(|| h.iter_changes(), |ch| format!("{:?}", conv_change(ch)), &want).map_err(|e| format!("hunk {}: iter_changes(): {}", k, e))?;
+                }
                 by_hunk_d.push_str(&hs);
                 h.to_writer(&mut by_hunk_w).map_err(|e| e.to_string())?;
                 k += 1;
             }
             if k != groups.len() {
                 return Err(format!("iter_hunks yields {} hunks for {} non-empty groups", k, groups.len()));
+            }
+            if k <= 12 {
+                let want: Vec<String> = u.iter_hunks().map(|h| h.to_string()).collect();
+                super::misc::drive_check(|| u.iter_hunks(), |h| h.to_string(), &want).map_err(|e| format!("iter_hunks(): {}", e))?;
             }
             if Some(by_hunk_d.as_bytes()) != display.as_deref() {
                 return Err("the hunks of iter_hunks (Display) do not add up to the whole diff".to_string());
@@ -2425,6 +2447,27 @@ fn inline_pair<T: DiffableStr + ?Sized>(ctx: &mut Ctx, alg: Algorithm, mode: Mod
                     if let Err(e) = check_inline(op, &plain, got) {
                         ctx.violation("C16", &req, e);
                     }
+                    // the iterator itself, driven every way an iterator can be driven (no deadline: re-runnable)
+                    if dl.is_none() && got.len() <= 24 {
+                        let want: Vec<String> = got.iter().map(|c| format!("{:?}", c)).collect();
+                        let conv = |ic: similar::InlineChange<'_, T>| {
+                            format!(
+                                "{:?}",
+                                IChg {
+                                    tag: ic.tag(),
+                                    oi: ic.old_index(),
+                                    ni: ic.new_index(),
+                                    segs: ic.values().iter().map(|(e, v)| (*e, v.as_bytes().to_vec())).collect(),
+                                    missing_newline: ic.missing_newline(),
+                                }
+                            )
+                        };
+                        match catch_unwind(AssertUnwindSafe(|| super::misc::drive_check(|| diff.iter_inline_changes(op), conv, &want))) {
+                            Ok(Ok(())) => {}
+                            Ok(Err(e)) => ctx.violation("C16", &req, format!("iter_inline_changes: {}", e)),
+                            Err(_) => ctx.violation("C16", &req, "iter_inline_changes panicked when driven through nth/skip/fold/...".to_string()),
+                        }
+                    }
                     if op.tag() == DiffTag::Replace {
                         let refined = got.iter().any(|c| c.segs.len() != 1 || c.segs.iter().any(|s| s.0));
                         if refined {
@@ -2674,7 +2717,16 @@ fn remap_eval<T: DiffableStr + ?Sized>(kind: Kind, alg: Algorithm, old: &T, new:
         let remapper = TextDiffRemapper::from_text_diff(&diff, old, new);
         diff.ops()
             .iter()
-            .map(|op| remapper.iter_slices(op).map(|(t, s)| locate(t, s.as_bytes(), old.as_bytes(), new.as_bytes())).collect::<Vec<Slice>>())
+            .map(|op| {
+                let v = remapper.iter_slices(op).map(|(t, s)| locate(t, s.as_bytes(), old.as_bytes(), new.as_bytes())).collect::<Vec<Slice>>();
+                // the iterator itself, driven every way an iterator can be driven; a difference shows as a missing slice
+                let want: Vec<String> = v.iter().map(|x| format!("{:?}", x)).collect();
+                let conv = |(t, sl): (ChangeTag, &T)| format!("{:?}", locate(t, sl.as_bytes(), old.as_bytes(), new.as_bytes()));
+                match super::misc::drive_check(|| remapper.iter_slices(op), conv, &want) {
+                    Ok(()) => v,
+                    Err(_) => vec![],
+                }
+            })
             .collect::<Vec<_>>()
     }))
     .ok();
